@@ -9,19 +9,13 @@ let show_cmds (l : n list list) : string =
 
 let rec drop k l = if k <= 0 then l else match l with [] -> [] | _ :: t -> drop (k - 1) t
 
-(* receive buffer of handshake_login: a reply of n bytes overwrites the first n bytes and
-   leaves the rest as it was (glue, used only for replies without a NUL after a longer one) *)
+(* receive buffer of handshake_login: since the repair of the unterminated-sscanf defect the reply of
+   n bytes is followed by a NUL written by the client (in[read] = 0), whatever the buffer held before *)
 let effective (replies : string list) : n list option list =
-  let prev = ref [] in
   Stdlib.List.map
     (fun r ->
       if r = "T" then None
-      else begin
-        let b = bytes_of_hex r in
-        let e = b @ drop (Stdlib.List.length b) !prev in
-        prev := e;
-        Some e
-      end)
+      else Some (bytes_of_hex r @ [ N0 ]))
     replies
 
 let run_line (line : string) : string =
